@@ -53,6 +53,9 @@ def check(run):
     loader(run, p)
     checkmode(run, p)
     flags(run, p)
+    from .. import ief, triage
+    ief.run_ief(run, 'C19', [p.fn('ReferenceTestCase.main'), p.fn('tdda.referencetest.referencepytest.tagged')], triage=triage.IEF)
+    run.floor('C19-IEF', run.units['ief_functions_checked'], 6)
 
 
 def argvidx(run, p):
